@@ -1,4 +1,5 @@
 import Firefly.Proof.AmlObjRt
+import Firefly.Proof.AmlKids
 /-!
 Declaration-level round trip (`C11`): the first pass on a `Name` declaration creates the `Name` object under the
 current scope with its name-path argument carrying the encoded path.
@@ -24,6 +25,36 @@ theorem name_row : pOpcodeTableIndex 8 false ≠ badOpcode ∧ InfoOK (pOpcodeTa
   unfold InfoOK
   decide +kernel
 
+/-- what a declaration step of the first pass does to the objects that existed: they stay, under the same parents and
+with the same payload; only the innermost scope block `top` gets a new last child `x` -/
+structure OldKept (s s' : PState) (top x : Nat) : Prop where
+  lv : ∀ y, live s.tree y = true → live s'.tree y = true
+  par : ∀ y, live s.tree y = true → C13.P s'.tree y = C13.P s.tree y
+  pay : ∀ y, live s.tree y = true → Pay (slot s'.tree y) = Pay (slot s.tree y)
+  kids : ∀ y, live s.tree y = true → K s'.tree y = if y = top then K s.tree y ++ [x] else K s.tree y
+
+/-- the objects a `Name` declaration creates in the first pass: the `Name` object `x` and its name path `c` -/
+structure NameDecl (d : Bytes) (s s' : PState) (x c off len : Nat) : Prop where
+  fp : FP d s'
+  nx : live s.tree x = false
+  nc : live s.tree c = false
+  lx : live s'.tree x = true
+  lc : live s'.tree c = true
+  opx : (slot s'.tree x).opcode = 8
+  infx : (slot s'.tree x).infoIndex = pOpcodeTableIndex 8 true
+  thx : (slot s'.tree x).tableHandle = s.tableHandle
+  opc : (slot s'.tree c).opcode = opIntNamePath
+  infc : (slot s'.tree c).infoIndex = pOpcodeTableIndex opIntNamePath true
+  thc : (slot s'.tree c).tableHandle = s.tableHandle
+  valc : (slot s'.tree c).value = .bytes off len
+  kx : K s'.tree x = [c]
+  kc : K s'.tree c = []
+  px : C13.P s'.tree x = topOf s
+  pc : C13.P s'.tree c = x
+  rest : SameRest s s'
+  old : OldKept s s' (topOf s) x
+  size : s'.tree.pool.size ≤ s.tree.pool.size + 2
+
 /-- **the first pass on a `Name` declaration**: with the reader at the bytes `08 <NameString>` inside the current package,
 `parseNextObject` (skip mode) succeeds; it creates a `Name` object `x` as the last child of the innermost scope block and a
 name-path object `c` as its only argument, whose value is the `[]byte` covering exactly the encoded path; the reader stands
@@ -41,7 +72,8 @@ theorem name_decl_first_pass {d : Bytes} (hd : d.size + 1024 ≤ 4294967296) (f 
       Fi s'.tree x = c ∧ La s'.tree x = c ∧ C13.P s'.tree c = x ∧ (slot s'.tree c).opcode = opIntNamePath ∧
       (slot s'.tree c).value = .bytes (base + 1) ((encName root carets segs).length - (if segs = [] then 1 else 0)) ∧
       s'.r = { offset := base + 1 + (encName root carets segs).length, pkgEnd := pe } ∧ s'.scopeStack = s.scopeStack ∧
-      (∀ y, live s.tree y = true → live s'.tree y = true ∧ C13.P s'.tree y = C13.P s.tree y) := by
+      (∀ y, live s.tree y = true → live s'.tree y = true ∧ C13.P s'.tree y = C13.P s.tree y) ∧
+      NameDecl d s s' x c (base + 1) ((encName root carets segs).length - (if segs = [] then 1 else 0)) := by
   obtain ⟨r1, r2, r3, r4, r5, r6⟩ := name_row
   have w := h.tree.wf
   have hL : 1 ≤ (encName root carets segs).length := by
@@ -78,6 +110,7 @@ theorem name_decl_first_pass {d : Bytes} (hd : d.size + 1024 ≤ 4294967296) (f 
   -- the `Name` object
   obtain ⟨x, s3, e3, h3, f3, hr3, hop3, hinfo3, _⟩ := newObject_step h2 8 (by rw [ht2]; omega) r6 r2
   refine bind_ex e3 ?_
+  have hth3 : (slot s3.tree x).tableHandle = s.tableHandle := by rw [newObject_handle e3, ← hs2]
   have hobj3 : live s3.tree x = true := f3.liven
   obtain ⟨s4, e4, h4, hp4, hsl4, hr4⟩ := upd_step h3 hobj3 (fun o => { o with amlOffset := base }) (by keeps_links) Iff.rfl
     (h3.tree.info _ hobj3)
@@ -85,6 +118,8 @@ theorem name_decl_first_pass {d : Bytes} (hd : d.size + 1024 ≤ 4294967296) (f 
   have f4 : Fresh1 x s2 s4 := f3.thenPay hp4
   have hop4 : (slot s4.tree x).opcode = 8 := by rw [hsl4]; exact hop3
   have hinfo4 : (slot s4.tree x).infoIndex = pOpcodeTableIndex 8 true := by rw [hsl4]; exact hinfo3
+  have hth4 : (slot s4.tree x).tableHandle = s.tableHandle := by rw [hsl4]; exact hth3
+  obtain ⟨hk4x, hk4⟩ := fresh1_kids f4 h2.tree.wf h4.tree.wf
   have hne4 : s4.scopeStack.size ≠ 0 := by rw [f4.scope, hsc2]; exact hne
   obtain ⟨esc, _, _⟩ := scopeCurrent_top h4 hne4
   have htop4 : topOf s4 = topOf s := by unfold topOf; rw [f4.scope, hsc2]
@@ -94,13 +129,14 @@ theorem name_decl_first_pass {d : Bytes} (hd : d.size + 1024 ≤ 4294967296) (f 
   obtain ⟨_, htopl, _⟩ := scopeCurrent_top h hne
   have htopl2 : live s2.tree (topOf s) = true := by rw [ht2]; exact htopl
   have hx2 : live s2.tree x = false := f4.nlive
-  obtain ⟨s5, e5, h5, hs5, hsz5, sp5, hl5, hP5, hLa5, hNx5, hFi5⟩ :=
-    append_step h4 h2.tree.wf (fun y hy => ⟨by rw [f4.livex y (f4.ne hy)]; exact hy, by
+  obtain ⟨s5, e5, h5, hs5, hsz5, sp5, hl5, hP5, hLa5, hNx5, hFi5, hK5⟩ :=
+    append_step_k h4 h2.tree.wf (fun y hy => ⟨by rw [f4.livex y (f4.ne hy)]; exact hy, by
       show (slot s4.tree y).parentIndex = (slot s2.tree y).parentIndex; rw [f4.old y (f4.ne hy)]⟩) htopl2 hx2 f4.liven f4.pn
   refine bind_ex e5 ?_
   have hx5 : live s5.tree x = true := by rw [hl5]; exact f4.liven
   have hop5 : (slot s5.tree x).opcode = 8 := by rw [pay_opcode (sp5.pay x)]; exact hop4
   have hinfo5 : (slot s5.tree x).infoIndex = pOpcodeTableIndex 8 true := by rw [pay_info (sp5.pay x)]; exact hinfo4
+  have hth5 : (slot s5.tree x).tableHandle = s.tableHandle := by rw [pay_handle (sp5.pay x)]; exact hth4
   have htopx : topOf s ≠ x := fun e => by rw [e, hx2] at htopl2; cases htopl2
   have hfi5 : Fi s5.tree x = INV := by rw [hFi5, if_neg (fun hq => htopx hq.1.symm)]; exact f4.fin
   have hla5 : La s5.tree x = INV := (h5.tree.wf.lP hx5).ends.1 hfi5
@@ -128,7 +164,10 @@ theorem name_decl_first_pass {d : Bytes} (hd : d.size + 1024 ≤ 4294967296) (f 
       s7.r = { offset := base + 1 + (encName root carets segs).length, pkgEnd := pe } ∧ s7.scopeStack = s5.scopeStack ∧
       Nx s7.tree x = Nx s5.tree x ∧
       (∀ y, live s5.tree y = true → live s7.tree y = true ∧ C13.P s7.tree y = C13.P s5.tree y ∧
-        Pay (slot s7.tree y) = Pay (slot s5.tree y)) := by
+        Pay (slot s7.tree y) = Pay (slot s5.tree y)) ∧
+      (slot s7.tree c).infoIndex = pOpcodeTableIndex opIntNamePath true ∧ (slot s7.tree c).tableHandle = s5.tableHandle ∧
+      K s7.tree c = [] ∧ (∀ y, live s5.tree y = true → K s7.tree y = if y = x then K s5.tree x ++ [c] else K s5.tree y) ∧
+      SameRest s5 s7 ∧ s7.tree.pool.size ≤ s5.tree.pool.size + 1 := by
     unfold parseArgs
     rw [opArgCount_of_info r2, r3]
     refine bind_ex (optP_ex _ s5) ?_
@@ -137,7 +176,7 @@ theorem name_decl_first_pass {d : Bytes} (hd : d.size + 1024 ≤ 4294967296) (f 
     -- the name string
     unfold parseArg
     rw [if_pos (by decide)]
-    obtain ⟨c, s6, e6, h6, c1, c2, c3, c4, c5, c6, fc⟩ := name_object_roundtrip hd h5 (by
+    obtain ⟨c, s6, e6, h6, c1, c2, c3, c4, c5, c6, fc, ci, cth⟩ := name_object_roundtrip hd h5 (by
         have := f4.size.2
         rw [hsz5]; rw [ht2] at this; omega)
       root carets segs (base + 1) pe hr5 hpe hok henc hfit
@@ -145,8 +184,9 @@ theorem name_decl_first_pass {d : Bytes} (hd : d.size + 1024 ≤ 4294967296) (f 
     dsimp only
     -- `append(curObj, c)`
     have hx6 : live s6.tree x = true := by rw [fc.livex x (fc.ne hx5)]; exact hx5
-    obtain ⟨s7, e7, h7, hs7, hsz7, sp7, hl7, hP7, hLa7, hNx7, hFi7⟩ :=
-      append_step h6 h5.tree.wf (fun y hy => ⟨by rw [fc.livex y (fc.ne hy)]; exact hy, by
+    obtain ⟨hk6c, hk6⟩ := fresh1_kids fc h5.tree.wf h6.tree.wf
+    obtain ⟨s7, e7, h7, hs7, hsz7, sp7, hl7, hP7, hLa7, hNx7, hFi7, hK7⟩ :=
+      append_step_k h6 h5.tree.wf (fun y hy => ⟨by rw [fc.livex y (fc.ne hy)]; exact hy, by
         show (slot s6.tree y).parentIndex = (slot s5.tree y).parentIndex; rw [fc.old y (fc.ne hy)]⟩) hx5 c1 c2 c3
     refine bind_ex e7 ?_
     rw [if_pos rfl]
@@ -179,7 +219,9 @@ theorem name_decl_first_pass {d : Bytes} (hd : d.size + 1024 ≤ 4294967296) (f 
     dsimp only
     rw [if_neg (by decide)]
     refine pure_ex ⟨rfl, c, h7, c1, by rw [hl7]; exact c2, by rw [hFi7, if_pos ⟨rfl, hla6⟩], hLa7, by rw [hP7, if_pos rfl],
-      by rw [pay_opcode (sp7.pay c)]; exact c5, by rw [pay_value (sp7.pay c)]; exact c4, hr7, hsc7, ?_, ?_⟩
+      by rw [pay_opcode (sp7.pay c)]; exact c5, by rw [pay_value (sp7.pay c)]; exact c4, hr7, hsc7, ?_, ?_,
+      by rw [pay_info (sp7.pay c)]; exact ci, by rw [pay_handle (sp7.pay c)]; exact cth, ?_, ?_,
+      (fresh1_rest fc).trans (SameRest.ofTree hs7), by rw [hsz7]; exact fc.size.2⟩
     · have hxc : x ≠ c := fc.ne hx5
       rw [hNx7, if_neg hxc, if_neg (fun hq => by rw [hla6] at hq; exact hq.2 rfl)]
       show (slot s6.tree x).nextSiblingIndex = (slot s5.tree x).nextSiblingIndex
@@ -191,12 +233,20 @@ theorem name_decl_first_pass {d : Bytes} (hd : d.size + 1024 ≤ 4294967296) (f 
         show (slot s6.tree y).parentIndex = (slot s5.tree y).parentIndex
         rw [fc.old y hyc]
       · rw [sp7.pay y, fc.old y hyc]
-  obtain ⟨a7, s7, e7, ha7, c, h7, c1, c2, c3, c4, c5, c6, c7, c8, c9, cnx, c10⟩ := eargs
+    · have hcx : c ≠ x := fun e => (fc.ne hx5) e.symm
+      rw [hK7 c c2, if_neg hcx]; exact hk6c
+    · intro y hy
+      have hy6 : live s6.tree y = true := by rw [fc.livex y (fc.ne hy)]; exact hy
+      rw [hK7 y hy6]
+      by_cases hyx : y = x
+      · rw [if_pos hyx, if_pos hyx, hk6 x hx5]
+      · rw [if_neg hyx, if_neg hyx, hk6 y hy]
+  obtain ⟨a7, s7, e7, ha7, c, h7, c1, c2, c3, c4, c5, c6, c7, c8, c9, cnx, c10, c11, c12, c13, c14, c15, c16⟩ := eargs
   refine bind_ex (optP_ex fl s5) ?_
   refine bind_ex e7 ?_
   rw [ha7]
   refine pure_ex ⟨by decide, x, c, h7, by rw [← ht2]; exact hx2, ?_, (c10 x hx5).1, c2, ?_, ?_, ?_, c3, c4, c5, c6, c7, c8,
-    by rw [c9, hsc5], ?_⟩
+    by rw [c9, hsc5], ?_, ?_⟩
   · -- `c` was not live in `s`
     cases hq : live s.tree c with
     | false => rfl
@@ -215,5 +265,62 @@ theorem name_decl_first_pass {d : Bytes} (hd : d.size + 1024 ≤ 4294967296) (f 
     rw [(c10 y hy5).2.1, hP5, if_neg (f4.ne hy2)]
     show (slot s4.tree y).parentIndex = (slot s.tree y).parentIndex
     rw [f4.old y (f4.ne hy2), ht2]
+  · have hc_s : live s.tree c = false := by
+      cases hq : live s.tree c with
+      | false => rfl
+      | true =>
+        have : live s5.tree c = true := by
+          rw [hl5, f4.livex c (f4.ne (by rw [ht2]; exact hq)), ht2]; exact hq
+        rw [c1] at this; cases this
+    have r25 : SameRest s s5 := by
+      have a : SameRest s s2 := by rw [← hs2]; exact SameRest.ofR _
+      exact (a.trans (fresh1_rest f4)).trans (SameRest.ofTree hs5)
+    have hold5 : ∀ y, live s.tree y = true → live s5.tree y = true := by
+      intro y hy
+      have hy2 : live s2.tree y = true := by rw [ht2]; exact hy
+      rw [hl5, f4.livex y (f4.ne hy2)]; exact hy2
+    have htop4 : live s4.tree (topOf s) = true := by rw [f4.livex _ (f4.ne htopl2)]; exact htopl2
+    refine ⟨h7, by rw [← ht2]; exact hx2, hc_s, (c10 x hx5).1, c2, ?_, ?_, ?_, c6, c11, ?_, c7, ?_, c13, ?_, c5, r25.trans c15, ?_, ?_⟩
+    · rw [pay_opcode (c10 x hx5).2.2]; exact hop5
+    · rw [pay_info (c10 x hx5).2.2]; exact hinfo5
+    · rw [pay_handle (c10 x hx5).2.2]; exact hth5
+    · rw [c12, r25.th]
+    · rw [c14 x hx5, if_pos rfl, hK5 x f4.liven, if_neg (fun e => htopx e.symm), hk4x]; rfl
+    · rw [(c10 x hx5).2.1, hP5, if_pos rfl]
+    · refine ⟨fun y hy => (c10 y (hold5 y hy)).1, ?_, ?_, ?_⟩
+      · intro y hy
+        have hy2 : live s2.tree y = true := by rw [ht2]; exact hy
+        rw [(c10 y (hold5 y hy)).2.1, hP5, if_neg (f4.ne hy2)]
+        show (slot s4.tree y).parentIndex = (slot s.tree y).parentIndex
+        rw [f4.old y (f4.ne hy2), ht2]
+      · intro y hy
+        have hy2 : live s2.tree y = true := by rw [ht2]; exact hy
+        rw [(c10 y (hold5 y hy)).2.2, sp5.pay y, f4.old y (f4.ne hy2), ht2]
+      · intro y hy
+        have hy2 : live s2.tree y = true := by rw [ht2]; exact hy
+        have hyx : y ≠ x := f4.ne hy2
+        have hy4 : live s4.tree y = true := by rw [f4.livex y hyx]; exact hy2
+        rw [c14 y (hold5 y hy), if_neg hyx, hK5 y hy4]
+        by_cases hyt : y = topOf s
+        · rw [if_pos hyt, if_pos hyt, hyt, hk4 _ htopl2, ht2]
+        · rw [if_neg hyt, if_neg hyt, hk4 y hy2, ht2]
+    · have := f4.size.2
+      rw [ht2] at this
+      omega
+
+/-- `name_decl_first_pass`, the structured form -/
+theorem name_decl_k {d : Bytes} (hd : d.size + 1024 ≤ 4294967296) (f : Nat) {s : PState} (h : FP d s)
+    (hsk : s.allBlocks = false) (hne : s.scopeStack.size ≠ 0) (hsz : s.tree.pool.size + 2 < INV)
+    (root : Bool) (carets : Nat) (segs : List (List UInt8)) (base pe : Nat) (hr : s.r = { offset := base, pkgEnd := pe })
+    (hpe : pe ≤ d.size) (hok : NameOK segs) (hop : d[base]? = some 0x08)
+    (henc : ∀ i, i < (encName root carets segs).length → d[base + 1 + i]? = (encName root carets segs)[i]?)
+    (hfit : base + 1 + (encName root carets segs).length ≤ pe) :
+    ∃ s' x c, parseNextObject d (f + 5) s = .ok (PRes.ok, s') ∧
+      NameDecl d s s' x c (base + 1) ((encName root carets segs).length - (if segs = [] then 1 else 0)) ∧
+      s'.r = { offset := base + 1 + (encName root carets segs).length, pkgEnd := pe } := by
+  obtain ⟨a, s', e, ha, x, c, _, _, _, _, _, _, _, _, _, _, _, _, _, hr', _, _, nd⟩ :=
+    name_decl_first_pass hd f h hsk hne hsz root carets segs base pe hr hpe hok hop henc hfit
+  subst ha
+  exact ⟨s', x, c, e, nd, hr'⟩
 
 end Firefly.AmlParser.F
